@@ -18,3 +18,18 @@ def insert(path, anchor, text, where="after", nth=1):
                 open(path, "wb").write(b"".join(lines))
                 return
     raise SystemExit("anchor not found: %s in %s" % (anchor, path))
+
+
+def replace(path, old, new, nth=1):
+    """Byte-preserving replacement of a fragment inside one line (nth matching line)."""
+    data = open(path, "rb").read()
+    lines = data.splitlines(keepends=True)
+    cnt = 0
+    for i, l in enumerate(lines):
+        if old.encode() in l:
+            cnt += 1
+            if cnt == nth:
+                lines[i] = l.replace(old.encode(), new.encode(), 1)
+                open(path, "wb").write(b"".join(lines))
+                return
+    raise SystemExit("fragment not found: %s in %s" % (old, path))
